@@ -197,6 +197,12 @@ def make(i, base_seed, tier):
             # ACK payload: both end up in its RX FIFO, in that order, and send() says True
             ops.insert(zr.randint(0, len(ops)), {"op": "so_ackpl", "d1": hx(common.rand_payload(zr, zr.randint(1, 32))), "d2": hx(common.rand_payload(zr, zr.randint(1, 32))),
                                                  "ap": hx(common.rand_payload(zr, zr.randint(1, 32)))})
+    if not grid and zr.random() < 0.25:
+        # the application of either side touches its radio at run time between payloads - things that change nothing about the link:
+        # a power-saving nap, another PA level, its interrupt mask
+        for _ in range(zr.randint(1, 2)):
+            ops.insert(zr.randint(0, len(ops)), {"op": "tweak", "side": zr.choice(["rx", "rx", "tx"]), "what": zr.choice(["nap", "nap", "pa_level", "irq", "irq"]),
+                                                 "v": zr.choice([-18, -12, -6, 0]), "args": [zr.random() < 0.5 for _ in range(3)], "ms": zr.choice([0, 1, 3])})
     mode = "conc" if (tier == "thorough" and not grid and rng.random() < 0.4) else "seq"
     kr = stream(seed, "knobs")
     scn = {"seed": seed, "cfg": cfg, "ops": ops, "faults": faults, "mode": mode,
@@ -323,6 +329,24 @@ def _run(scn, cfg, w, res):
                 back = kept.pop(id(rx))      # ... and finds them again, in front of whatever arrives next
                 expected.extend(back)
                 outstanding = len(back)
+            continue
+        if op["op"] == "tweak":
+            if conc or id(tx) in stale:
+                continue
+            drain_all()
+            outstanding = 0
+            d_ = rx if op["side"] == "rx" else tx
+            sim.log("call", "R" if op["side"] == "rx" else "T", "tweak", op["what"])
+            if op["what"] == "nap":
+                d_.power = False
+                sim.advance(op["ms"] * MS)
+                d_.power = True
+                sim.advance(2 * MS)       # (the radio's power-up time)
+            elif op["what"] == "pa_level":
+                d_.pa_level = op["v"]
+            elif hasattr(d_, "interrupt_config"):
+                d_.interrupt_config(*op["args"])
+            sim.count("radio_touched_at_run_time")
             continue
         if op["op"] == "restart":
             if conc or not fwd or kept or id(tx) in stale:
